@@ -9,7 +9,8 @@ from scapy.config import conf
 import scapy.packet
 from scapy_cbor.packets import (AbstractCborStruct, CborArray, CborItem)
 from scapy_cbor.fields import (
-    BstrField, ConditionalField, EnumField, FlagsField, UintField, PacketField
+    BstrField, ConditionalField, EnumField, FlagsField, UintField, PacketField,
+    DecodeError
 )
 from scapy_cbor.util import encode_diagnostic
 from .fields import (EidField, DtnTimeField)
@@ -227,6 +228,10 @@ class CanonicalBlock(AbstractBlock):
         return b''
 
     def post_dissect(self, s):
+        if s:
+            # e.g. a CRC value present along with CRC type zero
+            raise DecodeError('Canonical block with {} unhandled items'.format(len(s)))
+
         # Extract payload from fields
         pay_type = self.fields.get('type_code')
         pay_data = self.fields.get('btsd')
